@@ -6,17 +6,20 @@
 (*                                                                           *)
 (* A block on the wire is [tag, [header, bodies, witness sets, aux map,      *)
 (* invalid list]]; it is projected to                                        *)
-(*   [tag, bodies: Seq(Id), wits: Seq(Id), aux: Seq(<<index, Id>>), invalid] *)
+(*   [tag, bodies: Seq(Id), wits: Seq(Id), aux: Seq(<<index, Id>>),          *)
+(*    has_invalid: BOOLEAN, invalid: Seq(index)]                             *)
 (* with Ids identifying the wire bytes of a part (positive integers),        *)
-(* indices 0-based, aux keys pairwise distinct, invalid a set of indices or  *)
-(* NoField for blocks whose era has no such list (tag < 5).  Byron main      *)
+(* indices 0-based.  aux and invalid are kept *in wire order*: the CDDL does *)
+(* not order them, so the aux entries may come in any key order (keys        *)
+(* pairwise distinct) and the invalid list may be unsorted, repeat an index  *)
+(* or name an index beyond the last transaction; only membership matters.    *)
+(* has_invalid is FALSE for eras without such a list (tag < 5).  Byron main  *)
 (* blocks (tag 1) carry <<tx, witnesses>> pairs: same projection with an     *)
 (* empty aux map and no invalid list; epoch boundary blocks (tag 0) carry no *)
 (* transactions.                                                             *)
 EXTENDS Integers, Sequences, FiniteSets, SequencesExt
 
 NoAux == 0
-NoField == {-1}
 
 EraOfTag(t) == CASE t \in {0, 1} -> "Byron"
                  [] t = 2 -> "Shelley"
@@ -32,7 +35,7 @@ Count(b) == Len(b.bodies)
 AuxAt(b, i) ==
     LET hits == {p \in Range(b.aux) : p[1] = i}
     IN IF hits = {} THEN NoAux ELSE (CHOOSE p \in hits : TRUE)[2]
-ListedInvalid(b, i) == b.invalid # NoField /\ i \in b.invalid
+ListedInvalid(b, i) == b.has_invalid /\ i \in Range(b.invalid)
 
 \* the i-th traversed transaction (i is 0-based)
 TxAt(b, i) == [body  |-> b.bodies[i + 1],
